@@ -234,3 +234,29 @@ func BenchmarkRun(b *testing.B) {
 		})
 	}
 }
+
+// Incremental exploration (SkipBelow) visits exactly the schedules of each level.
+func TestIncremental(t *testing.T) {
+	mk := func() vsched.Instance {
+		var mu vsync.Mutex
+		body := func() {
+			for i := 0; i < 3; i++ {
+				vsched.Go(func() { mu.Lock(); mu.Unlock(); mu.Lock(); mu.Unlock() })
+			}
+		}
+		return vsched.Instance{Body: body, Judge: func(res *vsched.Result) vsched.Judgement { return vsched.Judgement{} }}
+	}
+	full := vsched.Explore(vsched.Config{MaxCost: 2, Workers: 4, New: mk})
+	var sum int64
+	for b := 0; b <= 2; b++ {
+		st := vsched.Explore(vsched.Config{MaxCost: b, SkipBelow: b, Workers: 4, New: mk})
+		if st.Schedules != full.ByCost[b] || st.CompletedBound != b {
+			t.Fatalf("level %d: %d schedules, want %d (completed %d)", b, st.Schedules, full.ByCost[b], st.CompletedBound)
+		}
+		sum += st.Schedules
+	}
+	if sum != full.Schedules {
+		t.Fatalf("sum %d != %d", sum, full.Schedules)
+	}
+	t.Logf("%d schedules %v", full.Schedules, full.ByCost)
+}
